@@ -21,6 +21,8 @@ import (
 func c08Topologies() []*topology.FunctionTopology {
 	callsets := []map[string]int{
 		{}, {"net.Dial": 1}, {"net.Dial": 1, "os.Exec": 2}, {"fmt.Println": 1}, {"Dial": 1, "fmt.Println": 3}, {"net.DialTimeout": 1, "os.Exec": 1},
+		// only the LAST / only the FIRST call of a two-call requirement occurs
+		{"os.Exec": 1, "time.Sleep": 1}, {"net.Dial": 2, "time.Sleep": 1},
 	}
 	lits := [][]string{nil, {"/bin/sh"}, {"/BIN/SH -c", "/bin/sh", "http://evil.example"}}
 	var out []*topology.FunctionTopology
@@ -50,7 +52,7 @@ func c08Signatures(anchors []*topology.FunctionTopology) []detection.Signature {
 		fh := topology.GenerateFuzzyHash(a)
 		for _, e := range []float64{0, 4.0, 8} {
 			for _, tol := range []float64{0, 0.5, 8} {
-				for ri, req := range [][]string{nil, {"Dial"}, {"net.Dial", "os.Exec"}, {"syscall.Ptrace"}} {
+				for ri, req := range [][]string{nil, {"Dial"}, {"net.Dial", "os.Exec"}, {"syscall.Ptrace"}, {"syscall.Ptrace", "net.Dial", "time.Sleep"}} {
 					for pi, pat := range [][]string{nil, {"/bin/sh"}, {"/bin/sh", "zzz-absent"}} {
 						for _, nc := range []int{0, 4, 8} {
 							for _, ld := range []int{0, 1, 2} {
